@@ -70,6 +70,9 @@ def names_through_files(ck, tmp):
         descs.append({"SUIT_Envelope_Tagged": {n: {"value": n, "list": [n]} for n in chunk}})
     return glue.loaders_stream(ck, tmp, descs + glue.tricky_descriptions(), label="names-through-files")
 
+FOREIGN_VALUES = [None, [], 0, "", {}, "00", True, [0], 1]
+
+
 def enumerate_all(ck, tmp):
     reg = registry()
     cl = interp.classes()
@@ -156,9 +159,11 @@ def enumerate_all(ck, tmp):
         for name in vocab:
             if name in d["entries"]:
                 continue
-            desc = name if kind == "SuitEnum" else {name: None}
-            for_reqs.append(["encode", d["class"], desc, [], []])
-            for_meta.append((sp, d["class"], name, desc))
+            # a foreign name must be rejected WHATEVER value comes with it (the value alone could be the reason for a rejection)
+            for val in ([None] if kind == "SuitEnum" else FOREIGN_VALUES):
+                desc = name if kind == "SuitEnum" else {name: val}
+                for_reqs.append(["encode", d["class"], desc, [], []])
+                for_meta.append((sp, d["class"], name, desc))
     mres = interp.model_batch(ck, for_reqs)
     for (sp, cname, name, desc), mr in zip(for_meta, mres):
         ires = interp.run_impl(interp.impl_encode, cname, desc)
@@ -168,6 +173,34 @@ def enumerate_all(ck, tmp):
         if not (ires[0] == "exn" and ires[1] == "ValueError"):
             fails.append({"input": {"space": sp, "class": cname, "description": desc},
                           "observed": f"accepted / raised {short(ires)}", "expected": "rejected with ValueError (closed key space)"})
+    # ---- every unregistered integer near the registered ones, in every closed key space, with several argument values (model == implementation)
+    unreg = []
+    for sp, d in reg["spaces"].items():
+        cls = cl.get(d["class"])
+        if cls is None or not d["closed"]:
+            continue
+        kind = kind_of(cls)
+        used = set(d["entries"].values())
+        for code in range(min(used | {0}) - 3, max(used | {0}) + 4):
+            if code in used:
+                continue
+            for arg in ([None] if kind == "SuitEnum" else [0, [], None, b"", {}, 1, "x"]):
+                if kind == "SuitEnum":
+                    data = cbor2.dumps(code)
+                elif kind == "SuitKeyValueTuple":
+                    data = cbor2.dumps([code, arg])
+                else:
+                    data = cbor2.dumps({code: arg})
+                unreg.append((sp, d["class"], code, data))
+    umres = [interp.obj_result(r) for r in interp.model_batch(ck, [["parse", c, dt, []] for _, c, _, dt in unreg])]
+    for (sp, cname, code, data), mr in zip(unreg, umres):
+        ires = interp.run_impl(interp.impl_parse, cname, data)
+        ck.count("unregistered", (sp, code, data), nontrivial=True, sample={"space": sp, "unregistered_code": code})
+        if mr != ires and not interp.unmodelled(data) and not any(b[1] == "Interp.from_cbor (rejection)" for b in ck.broken):
+            ck.broken.append(("corr", "Interp.from_cbor (rejection)", f"{cname} {data.hex()}: model {short(mr)} implementation {short(ires)}"))
+        # (the property does not speak about unregistered integers on parse — the envelope map, for one, skips them —: this stream only ties
+        # the model's behaviour on them to the implementation's; a registered NAME shown for an unregistered code would be caught above,
+        # because no two names of a key space may share a code)
     # ---- tags
     tag_desc = {
         "SuitEnvelopeTagged": {"SUIT_Envelope_Tagged": {"suit-authentication-wrapper": {"SuitDigest": {"suit-digest-algorithm-id": "cose-alg-sha-256", "suit-digest-bytes": "00"}}, "suit-manifest": {"suit-manifest-version": 1}}},
